@@ -36,7 +36,16 @@ def replay(case):
         out = getattr(aes, case['fn'])(s)
         if kind == 'frame': return dict(reproduced=not np.array_equal(s, s0))
         exp = np.array([PRIM[case['fn']](list(map(int, r))) for r in s0.reshape(-1, s0.shape[-1])], dtype='uint8').reshape(s0.shape)
-        return dict(reproduced=(out.shape != exp.shape) or not np.array_equal(out, exp), got=out.tolist(), expected=exp.tolist())
+        if (out.shape != exp.shape) or not np.array_equal(out, exp): return dict(reproduced=True, got=out.tolist(), expected=exp.tolist())
+        # the refuted obligation is about a generic row of a batch of N states: replay the row inside batches as well
+        rnd = random.Random(3); row = s0.reshape(-1, s0.shape[-1])[0]
+        for n in (2, 3, 5):
+            batch = np.array([[rnd.randrange(256) for _ in range(s0.shape[-1])] for _ in range(n)], dtype=case['dtype']); batch[rnd.randrange(n)] = row
+            try: ob = getattr(aes, case['fn'])(batch)
+            except Exception as e: return dict(reproduced=True, detail='raises %r on a batch of %d states' % (e, n))
+            eb = np.array([PRIM[case['fn']](list(map(int, r))) for r in batch], dtype='uint8')
+            if ob.shape != eb.shape or not np.array_equal(ob, eb): return dict(reproduced=True, state=batch.tolist(), got=ob.tolist(), expected=eb.tolist())
+        return dict(reproduced=False, got=out.tolist(), expected=exp.tolist())
     if kind == 'ark':
         s = np.array(case['state'], dtype=case['dtype']); k = np.array(case['key'], dtype=case['dtype'])
         out = aes.add_round_key(s, k); return dict(reproduced=not np.array_equal(out, s ^ k), got=out.tolist())
